@@ -93,9 +93,9 @@ type Shaper struct {
 }
 
 type allocInfo struct {
-	whole    []ssa.Value            // values stored to the alloc itself
-	fields   map[int][]ssa.Value    // values stored through FieldAddr(alloc, i)
-	escapes  bool                   // address used other than load/store/fieldaddr-load/store
+	whole    []ssa.Value         // values stored to the alloc itself
+	fields   map[int][]ssa.Value // values stored through FieldAddr(alloc, i)
+	escapes  bool                // address used other than load/store/fieldaddr-load/store
 	fieldAdr map[int][]*ssa.FieldAddr
 }
 
